@@ -1,7 +1,7 @@
 /*@harness
 {"tier":"quick","mode":"bounded(sweep of 1 second over a slot holding at most 2 entries; the callback may schedule one new call_out with a symbolic delay; all times and deltas symbolic)","tus":["lib/efuns/call_out.c"],"include_tu":true,"dfcc":false,
  "functions":["call_out","new_call_out","free_called_call","free_call"],
- "flags":["--bounds-check","--pointer-check","--unwindset","due_in_slot.0:6"],"unwind":3,"tier_note":"x","timeout":1200,
+ "flags":["--bounds-check","--pointer-check","--unwindset","due_in_slot.0:6"],"unwind":3,"timeout":1200,
  "expect":["h_call_out_sweep.assertion","apply.assertion","call_out.pointer_dereference"],
  "native":{"rename":["setjmp"]},
  "assumptions":["apply() is the LPC callback: it may call call_out() (new_call_out) once, re-entrantly, with any delay","setjmp returns 0 (the error path is C05/C09 territory)","reference-count primitives are stubs"],
